@@ -31,6 +31,9 @@ EXPLANATION = ("Proved (Lean, unbounded): Token::Match's documented language, th
                "with; every pattern literal in lib/*.cpp is equivariant under every renaming that avoids the extracted reserved set; "
                "simplecpp's readfile+combineOperators+removeComments yields the same token spellings, at the positions the layout "
                "function predicts, for every well-formed layout of a token sequence (so any two layouts of the same tokens lex alike). "
+               "Inserting / removing comments and joining / splitting lines have NO theorem: comment tokens take part in combineOperators "
+               "(proved counterexample comment_line_insertion_not_neutral = open finding F05d, valid C++); these families are sampled on "
+               "the real lexer and by CLI pairs. "
                "Only sampled (CLI metamorphic pairs, never part of a proof): everything behind the token stream - dependence on names "
                "through ordered containers keyed by name, str() comparisons outside patterns, name-prefix tests, symbol-database "
                "definition order, value flow. Token classification (tokType/isName/varId) is assumed unchanged by the renaming.")
